@@ -236,8 +236,8 @@ theorem varF_ne_zero (f : Family) (hf : f = .gaussian ∨ f = .poisson ∨ f = .
     (varF f (Rounding7.invLinkF f ηh)).val ≠ 0 := by
   rcases hf with rfl | rfl | rfl
   · simp [varF]
-  · exact (expR_pos _).ne'
-  · exact (expR_pos _).ne'
+  · exact (expR_pos_stdmodel _).ne'
+  · exact (expR_pos_stdmodel _).ne'
 
 end link
 
